@@ -28,6 +28,9 @@ def use_rich_tree():
     got = os.path.dirname(os.path.dirname(os.path.abspath(rich.__file__)))
     if os.path.realpath(got) != os.path.realpath(src):
         raise RuntimeError("rich imported from %s, expected %s" % (got, src))
+    if os.environ.get("VERIF_NO_WATCHDOG") != "1":
+        from engine import watch
+        watch.install_global(os.path.join(os.path.realpath(got), "rich"))
 
 
 class Check:
@@ -56,6 +59,18 @@ class Check:
         self.parts = {}
         self._findings = [f for f in _load_findings() if f["property"] == pid]
         self.replay_only = None
+        from engine import watch
+        watch._G["on_limit"] = self._no_termination
+
+    def _no_termination(self, where, msg):
+        """engine/watch.py: calls into Rich keep not coming back.  The run ends here with what was judged so far."""
+        import traceback
+        stack = "".join(traceback.format_stack(limit=14))
+        self.reject("no-termination rich/%s" % where.split(":")[0] + " in " + where.split(" in ")[-1], msg, dict(stack=stack))
+        self.notes["ended_by_watchdog"] = msg
+        rc = self.finish()
+        sys.stdout.flush()
+        os._exit(rc)
 
     @property
     def thorough(self):
